@@ -53,9 +53,11 @@ class Prop:
             "actions_not_applicable": sum(c.get("skipped", 0) for c in cases),
             "steps_not_settled": sum(c.get("slow", 0) for c in cases),
             "stuck": [c["stuck"] for c in cases if c.get("stuck")][:5],
-            "race_rounds": len(races),
+            "race_rounds": sum(1 for c in races if c["race"]["kind"] != "drain"),
             "race_ghost_index_entries": sum(1 for c in races if c["race"]["ghost_entries"] > 0),
             "race_datagram_after_return": sum(1 for c in races if c["race"]["datagrams_after_return"] > 0),
+            "drain_rounds": sum(1 for c in races if c["race"]["kind"] == "drain"),
+            "drain_datagrams_during_drain": sum(c["race"].get("datagrams_during_drain", 0) for c in races if c["race"]["kind"] == "drain"),
         }
         for s in self.extra_coverage["stuck"]:
             vlib.log("C15: control-plane call did not return:", s)
@@ -65,7 +67,8 @@ class Prop:
         quick = tier == "quick"
         n = (120 if quick else 1500) * mult
         args = ["-seed", str(seed), "-n", str(n), "-shards", "16" if quick else "48", "-out", self.dir,
-                "-corpus", os.path.join(vlib.ROOT, "corpus", "C15"), "-race", "0" if quick else "400"]
+                "-corpus", os.path.join(vlib.ROOT, "corpus", "C15"), "-race", "0" if quick else "400",
+                "-drain", "3" if quick else "8"]
         return self._run_go(args)
 
     def _fails(self, outputs, shards, files):
@@ -127,6 +130,8 @@ class Prop:
         if case.get("_fail"):
             f = case["_fail"]
         clause = f["pos"] % 10
+        if case.get("mode", 0) == 1 and str(case.get("gen", "")).startswith("drain"):
+            return {2: "removal-drain-ghost-index-entry", 1: "removal-drain-datagram-after-return"}.get(clause, "removal-drain-clause%d" % clause)
         if case.get("mode", 0) == 1:
             return {2: "removal-race-ghost-index-entry", 1: "removal-race-datagram-after-return"}.get(clause, "removal-race-clause%d" % clause)
         steps = case.get("steps") or []
